@@ -198,7 +198,11 @@ def gen_field(d, backend, attr, *, series_case, used_names, override_mode=None, 
     fk = None
     if style == "kw" or d.p(0.7) and override_mode != "ann":
         fk = gen_field_kwargs(d, backend, kind, allow_alias=True, used_names=used_names, style=style)
-    return {"attr": attr, "ann": tag, "style": style, "optional": optional, "field": fk}
+    out = {"attr": attr, "ann": tag, "style": style, "optional": optional, "field": fk}
+    if optional:
+        # the spellings of "may be absent": Optional[T], Union[T, None], T | None (PEP 604)
+        out["opt_spelling"] = d.choice(["Optional", "Optional", "Union", "pep604"])
+    return out
 
 
 # ------------------------------------------------------------------ methods
